@@ -112,6 +112,7 @@ class _Builder:
             nb = _remap(blk, lo, bo)
             nb["src"] = b.path
             nb["src_file"] = b.file
+            nb["src_bb"] = len(self.blocks) - bo
             self.blocks.append(nb)
             self._note(nb)
         # now expand calls inside the copied range
@@ -192,7 +193,7 @@ class _Builder:
                 continue
             tt = nb["term"]
             if tt and tt["k"] == "return" and not nb["cleanup"] and nb.get("_owner", bo) == bo:
-                nb["stmts"].append({"k": "assign", "lhs": dest, "rv": {"k": "use", "op": {"k": "move", "pl": {"l": lo, "p": []}}}, "line": tt.get("line", line), "dline": 0, "exp": False, "inl": "ret"})
+                nb["stmts"].append({"k": "assign", "lhs": dest, "rv": {"k": "use", "op": {"k": "move", "pl": {"l": lo, "p": []}}}, "line": tt.get("line", line), "dline": 0, "exp": False, "inl": "ret", "inl_callee": cb.path})
                 nb["term"] = {"k": "goto", "target": cont, "inl_ret": cb.path}
                 nb["_ret_done"] = True
             elif tt and tt["k"] in ("return",) and nb["cleanup"]:
@@ -216,8 +217,9 @@ class _Builder:
             return        # the closure is stored or run elsewhere, not on this path
         line = t.get("line", 0)
         # adaptors whose result IS what the closure returned when it ran last (None / the receiver otherwise)
-        if cd.rsplit("::", 1)[-1] in ("find_map", "and_then", "or_else", "unwrap_or_else", "map_or_else", "then"):
-            t["hof_passthrough"] = cd.rsplit("::", 1)[-1]
+        last = cd.rsplit("::", 1)[-1]
+        if last in ("find_map", "and_then", "or_else", "unwrap_or_else", "map_or_else", "then", "find", "position", "any", "all") or (last == "map" and "option::Option" in cd):
+            t["hof_passthrough"] = last
         others = [a for i, a in enumerate(t["args"]) if i not in {j for j, _ in cls}]
         # move the call into a fresh block; this block becomes the loop head
         call_blk = {"stmts": [], "term": t, "cleanup": blk["cleanup"], "src": blk.get("src"), "src_file": blk.get("src_file")}
